@@ -247,6 +247,16 @@ type task struct {
 	panicked string
 }
 
+// releaseContexts cancels every context the listed outcomes still hold.
+func releaseContexts(outs []*Outcome) {
+	for _, o := range outs {
+		if o != nil && o.cleanup != nil {
+			o.cleanup()
+			o.cleanup = nil
+		}
+	}
+}
+
 func (t *task) yield(ev parkEvent) {
 	ev.op = t.opIdx
 	ev.release = make(chan struct{})
@@ -276,12 +286,15 @@ func (w *world) execOp(op OpSpec, tk *task, fresh bool) *Outcome {
 			out.Panic += " @ " + panicSite(debug.Stack())
 		}
 		if st != nil {
-			st.cleanup()
+			// Contexts stay live until the end of the bubble, as a caller's
+			// long-lived request context would: state that a change keeps
+			// from one call's context is then still "live" in the next.
+			out.cleanup = st.cleanup
 			out.Polls, out.Steps = st.polls, st.steps
 			out.Fired = st.fired
 			out.PollsAfter, out.StepsAfter = st.pollsAfter, st.stepsAfter
 			out.Observable = st.fired && (st.pollsAfter > 0 || st.stepsAfter > 0 ||
-				(st.fault != nil && st.fault.Model == "poll"))
+				(st.fault != nil && (st.fault.Model == "poll" || st.fault.Model == "pre")))
 			out.FireNode, out.FireStack = st.fireNode, st.fireStack
 			out.nodeKinds = st.nodeKinds
 		}
@@ -437,7 +450,7 @@ func (r *runResult) fingerprint() string {
 	return hex.EncodeToString(h[:16])
 }
 
-const maxScenarioSteps = 20000
+const maxScenarioSteps = 2000000
 
 // runConcurrent executes the scenario's tasks under the scenario's schedule.
 // Must be called inside a synctest bubble.
@@ -610,6 +623,9 @@ func (w *world) runConcurrent() *runResult {
 		}
 	}
 	res.stats.SimNanos = time.Since(t0).Nanoseconds()
+	for _, t := range tasks {
+		releaseContexts(t.results)
+	}
 	for _, t := range tasks {
 		if t.panicked != "" {
 			panic(harnessf("task %d: %s", t.id, t.panicked))
